@@ -234,7 +234,19 @@ def t2_parallel_chain(ctx, use_threading=True):
             state["eng"].work(durations[int(disc.name[1:])])
 
     discs, sizes = draw_disciplines(t, n, hook, shared_output="s" if additive else None)
-    cfg = {"workload": ("T2c-additive" if additive else "T2c-parallel-chain") + "/" + mode, "n_disc": n,
+    overlap = (not additive) and t.flag(0.35, "overlapping_output")
+    if overlap:
+        # two disciplines with the same inputs produce the same output name "w" (not summed): the chain gives
+        # priority to the last one, for the data and for the Jacobian alike
+        first, last = discs[0], discs[-1]
+        szs = dict(first.h_sizes)
+        szs["w"] = 2
+        discs[0] = HDisc(first.name, first.h_in, [*first.h_out, "w"], szs, salt=first.h_salt, hook=hook)
+        szl = dict(last.h_sizes)
+        szl.update({k: first.h_sizes[k] for k in first.h_in})
+        szl["w"] = 2
+        discs[-1] = HDisc(last.name, first.h_in, [*last.h_out, "w"], szl, salt=last.h_salt + 5, hook=hook)
+    cfg = {"workload": ("T2c-additive" if additive else "T2c-parallel-chain") + "/" + mode, "n_disc": n, "overlapping_output": bool(overlap),
            "n_workers": n_workers, "deep_copy": bool(deep), "durations": durations, "preempt": preempt,
            "disciplines": [(d.name, d.h_in, d.h_out) for d in discs]}
     ctx.event("cfg", canon(cfg))
